@@ -44,6 +44,7 @@ class Rules:
         out = []
         emitted = set()
         cur = list(exprs)
+        out += self.nth_of_concat(exprs)
         for _ in range(rounds):
             new = []
             for t in self.subterms(cur):
@@ -57,6 +58,29 @@ class Rules:
                 break
             out += new
             cur = new
+        return out
+
+    def nth_of_concat(self, exprs):
+        """ground instances of  (a ++ b)[t] = a[t] if t < |a| else b[t - |a|]  for the concatenations and index terms of the VC"""
+        idx, cats, seen_i = [], [], set()
+        for t in self.subterms(exprs):
+            if not z3.is_app(t):
+                continue
+            k = t.decl().kind()
+            if (k == z3.Z3_OP_SEQ_NTH or t.decl().name() in ("seq.nth", "seq.nth_i", "seq.nth_u")) and t.arg(0).sort() == SeqV:
+                if t.arg(1).get_id() not in seen_i:
+                    seen_i.add(t.arg(1).get_id())
+                    idx.append(t.arg(1))
+            elif k == z3.Z3_OP_SEQ_CONCAT and t.sort() == SeqV:
+                cats.append(t)
+        out = []
+        for c in cats[:12]:
+            ch = c.children()
+            a = ch[0]
+            b = ch[1] if len(ch) == 2 else z3.Concat(*ch[1:])
+            la = z3.Length(a)
+            for t in idx[:16]:
+                out.append(z3.Implies(z3.And(t >= 0, t < z3.Length(c)), c[t] == z3.If(t < la, a[t], b[t - la])))
         return out
 
     def _for_term(self, t):
